@@ -68,6 +68,57 @@ CHECKS: dict[str, tuple[str, str, str, str]] = {
         "out-of-range PEEK[a..b] bounds",
         "DESIGN.md 4/C05",
     ),
+    "C01": (
+        "differential monitor: generated module vs interpreter on the same Parser object, plus byte comparison of repeated generate()",
+        "For random grammars of every profile and the construct x context x modifier x trivia matrix, with optimizer None and default: "
+        "generate() twice (+ once more after parsing) must be byte-identical, the source must compile and execute, and for every rule as "
+        "start rule, all short inputs and all start positions of short inputs the generated parse() must return exactly the interpreter's "
+        "tree (names, spans, nesting, tags) or fail with the same furthest position. Bounded exploration.",
+        "relative property: the interpreter is the oracle; cases where it raises or where the reference evaluator finds undefined behaviour are skipped",
+        "DESIGN.md 4/C01",
+    ),
+    "C02": (
+        "differential monitor: optimized (default, single passes, random pipelines) vs unoptimized results computed before any optimizer ran in the process",
+        "Random grammars biased to the rewrite patterns and the construct matrix are parsed unoptimized (phase U of each worker process) "
+        "and then under the default pipeline and seeded configurations drawn from DEFAULT_OPTIMIZER_PASSES (each pass alone, subsets, "
+        "permutations, repetitions), interpreted and generated; outcome and tree must be equal. The evidence counts how often each pass "
+        "actually rewrote something. Bounded exploration.",
+        "relative property; failure positions are not compared; fresh Optimizer objects per configuration",
+        "DESIGN.md 4/C02",
+    ),
+    "C06": (
+        "invariant monitor on every successful parse of the engine workload and of the bundled grammars on corpus + mutants",
+        "Every Pairs object returned by any mode for generated grammars (all profiles, every start rule, start positions) and for the "
+        "bundled real-world grammars (shipped documents, inputs harvested from the repository's own tests, mutants) is walked: span/text "
+        "consistency, child order and containment, legal names and tags, balanced monotone tokens(), flatten() pre-order, single root at "
+        "start_pos, dump()/dumps() agreement with an independent renderer.",
+        "no reference model needed; names/tags are taken from the printed grammar (generated) or the loaded rule trees (bundled)",
+        "DESIGN.md 4/C06",
+    ),
+    "C07": (
+        "exception-type monitor at the API boundary + logical step budget + repeat-call comparison over a hostile workload",
+        "Hostile workload (stack operations weighted up, every rule as start rule, empty input, all short inputs = all truncations, "
+        "bare stack ops in every context, bundled grammars on truncations and mutants) in 4 modes: anything other than Pairs or "
+        "PestParsingError escaping, a step budget of 1000 x reference steps + 1e5 exceeded, or an unequal second call is a violation.",
+        "well-formed grammars by construction; deep inputs / RecursionError are abstentions; termination is judged in logical steps",
+        "DESIGN.md 4/C07",
+    ),
+    "C13": (
+        "invariant monitor on every PestParsingError (range, names, rendering, line:col vs count/rfind reference) + online fail() position monitor",
+        "Every failure of the engine workload (inputs with newlines and non-ASCII, every start position of short inputs, 4 modes) and of "
+        "the bundled grammars on multi-line mutated corpora is checked: furthest_pos in {-1} U [start_pos, len], names are rules or "
+        "built-ins, all renderers run, printed line:col and source line are those of the position.",
+        "line breaks are '\\n' only; the sentinel -1 is not judged for line:col",
+        "DESIGN.md 4/C13",
+    ),
+    "C16": (
+        "metamorphic monitor: parse(t, start_pos=k) vs parse(t[k:]) shifted, and prefix replacement, for all k, each mode against itself",
+        "SOI-free random grammars of all profiles and the matrix, and SOI-free rules of the bundled grammars: for every input and every k "
+        "the result at start_pos=k must equal the shifted suffix result (trees, failure position and expected sets) and must not change "
+        "when the characters before k are replaced.",
+        "relative property; grammars / rules that can reach SOI are excluded by a static check",
+        "DESIGN.md 4/C16",
+    ),
 }
 
 PENDING_REASON = "check not built yet in this revision of /verif (runtime monitor planned, see DESIGN.md section 4)"
